@@ -103,6 +103,9 @@ def effective(src, impl, fn_name, depth=0):
     sig, body, l0, _ = rp.find_fn(src, fn_name, impl)
     env = {}
     node = None
+    early = False
+    early_cond = None
+    early_val = None
     items = list(body[1]) + ([("expr", body[2], False, 0)] if body[2] is not None else [])
     for st in items:
         if st[0] == "let" and st[3] is not None and len(st[1][2]) == 1:
@@ -111,13 +114,34 @@ def effective(src, impl, fn_name, depth=0):
             continue
         elif st[0] == "expr" and st[1][0] == "if" and node is None:
             node = st[1]
+            # early-return form: `if !COND { return Err(..); }` followed by the update
+            tb = node[2]
+            lastx = rp.strip_paren(tb[1][-1][1]) if (tb[1] and tb[1][-1][0] == "expr") else (rp.strip_paren(tb[2]) if tb[2] is not None else None)
+            if node[3] is None and lastx is not None and lastx[0] == "return" and lastx[1] is not None and rp.show(lastx[1]).startswith("Err("):
+                c = rp.strip_paren(subst(node[1], env))
+                early_cond = c[2] if (c[0] == "unary" and c[1] == "!") else ("unary", "!", c)
+                early = True
+                node = None
+                continue
         elif st[0] == "expr" and st[1][0] == "mcall" and st[1][2] == "set_resample_ratio" and rp.show(st[1][1]) == "self" \
                 and depth == 0 and len(st[1][3]) == 2:
             cond, val = effective(src, impl, "set_resample_ratio", 1)
             arg = subst(st[1][3][0], env)
             return subst(cond, {"new_ratio": arg}), subst(val, {"new_ratio": arg})
+        elif early and st[0] == "expr" and st[1][0] == "mcall" and st[1][2] == "update_ratio" and rp.show(st[1][1]) == "self" and st[1][3]:
+            early_val = subst(st[1][3][0], env)
+        elif early and st[0] == "expr" and st[1][0] == "assign" and rp.show(st[1][2]) == "self.target_ratio":
+            early_val = subst(st[1][3], env)
+        elif early and st[0] == "expr" and rp.show(st[1]) == "Ok(())":
+            continue
+        elif early and st[0] == "expr" and st[1][0] in ("if", "assign", "mcall"):
+            continue
         else:
             raise Undecided("unexpected statement in %s: %s" % (fn_name, rp.show(st)))
+    if early:
+        if early_val is None:
+            raise Undecided("%s: early-return form without an update of the target ratio" % fn_name)
+        return rp.strip_paren(subst(early_cond, env)) if False else early_cond, early_val
     if node is None:
         raise Undecided("%s has neither a top-level if/else nor a delegation" % fn_name)
     cond = subst(node[1], env)
